@@ -62,6 +62,8 @@ pub struct Reflex {
     // ---- behaviour switches
     /// Withhold replies to synchronous requests on channels != 0.
     pub hold: bool,
+    /// Withhold replies on these channels only.
+    pub hold_channels: std::collections::HashSet<u16>,
     /// Also withhold Channel.OpenOk / Channel.CloseOk.
     pub hold_open_close: bool,
     /// After answering Connection.Close with CloseOk, also end the stream.
@@ -102,6 +104,7 @@ impl Default for Reflex {
             on_tune_ok_do: None,
             on_open_do: None,
             hold: false,
+            hold_channels: Default::default(),
             hold_open_close: false,
             eof_after_close_ok: false,
             ignore_conn_close: false,
@@ -310,7 +313,7 @@ impl Reflex {
 
     fn reply(&mut self, ch: u16, seq: u64, what: &str, frames: Vec<Vec<u8>>, out: &mut Vec<Vec<u8>>) {
         let is_open_close = what == "Channel.OpenOk" || what == "Channel.CloseOk";
-        if ch != 0 && self.hold && (!is_open_close || self.hold_open_close) {
+        if ch != 0 && (self.hold || self.hold_channels.contains(&ch)) && (!is_open_close || self.hold_open_close) {
             self.held.push(Held {
                 ch,
                 seq,
